@@ -1,6 +1,7 @@
 // Correspondence suites for the primitives: AES block (C09), mode streams (C10), hashes (C07), HMAC (C08), base64 (C16).
 // Calls the repository's real code in-process and prints request/real-result pairs for the Lean driver.
 #include "common.h"
+#include <map>
 #include "aes.h"
 #include "tab.h"
 #include "aesmode.h"
@@ -202,7 +203,10 @@ static std::string real_string_hash(int alg, const bytes &m) {
   HashFactory hf; Hashmaster *h = hf.getHasher(hf.getType((u8_t)alg));
   if (!h) return "null";
   static const unsigned char none = 0;
-  unsigned char out[64]; h->getStringHash(m.empty() ? &none : m.data(), (u32_t)m.size(), out);
+  unsigned char out[64];
+  static unsigned odd = 0;      // every other message lives at an address that is not a multiple of 4 (the API takes a byte pointer)
+  if (++odd % 2 && !m.empty()) { std::vector<unsigned char> raw(m.size() + 8); unsigned char *q = raw.data() + 1 + (odd / 2) % 3; memcpy(q, m.data(), m.size()); h->getStringHash(q, (u32_t)m.size(), out); }
+  else h->getStringHash(m.empty() ? &none : m.data(), (u32_t)m.size(), out);
   std::string r = hex(out, h->gethlen()); delete h; return r;
 }
 static std::string real_file_hash(int alg, const bytes &file, size_t pos, const bytes *prefix) {
@@ -332,10 +336,43 @@ static void suite_hashbig(Rng &rng) {
   (void)rng; if (!tier_thorough()) { emitI("hashbig", "skipped", "quick tier"); return; }
   size_t n = ((size_t)1 << 29) + 61; std::vector<unsigned char> m(n); for (size_t i = 0; i < n; i++) m[i] = (unsigned char)(i % 251);
   static const char *want[3] = {"b997c2088dda80d2f1e8a079965074a6d01b721f", "94ac13603436a4b70682234f804421e5", "74775216e9ad833812ff62243043618fbe6e089c04137a33db8179f01ec17046"};
-  for (int alg = 0; alg < 3; alg++) { trace_case("hashbig", "alg=" + S(alg) + " message m[i] = i % 251 of 2^29+61 bytes");
+  for (int alg = 0; alg < 3; alg++) { trace_case("hashbig", "alg=" + S(alg) + " message m[i] = i % 251 of 2^29+61 bytes"); alarm(600);
     HashFactory hf; Hashmaster *h = hf.getHasher(hf.getType((u8_t)alg)); unsigned char d[64]; h->getStringHash(m.data(), (u32_t)n, d); std::string got = hex(d, h->gethlen()); delete h;
     if (got != want[alg]) emitA("hashbig", "C07", "digest of the 2^29+61-byte message m[i] = i % 251 (alg " + S(alg) + ") is " + got + ", the standard one (hashlib) is " + want[alg]); }
   emitI("hashbig", "big_messages", "3");
+}
+
+// HMAC over a region of 2^29 bytes (bit length of the inner hash beyond 32 bits), thorough tier only; reference tags from Python's hmac
+static void suite_hmacbig(Rng &rng) {
+  (void)rng; if (!tier_thorough()) { emitI("hmacbig", "skipped", "quick tier"); return; }
+  static const char *want[3] = {"bec166b5f244c975d34506e0fdc35a5e444fa40d", "3404a61ad9810b1ae1f5fa6e1bf2a6bf", "165ebd62bd470e75915e25044c3974eeef5cb761f97893935a1f895bf3192cde"};
+  alignas(16) unsigned char k[16]; for (int i = 0; i < 16; i++) k[i] = (unsigned char)(17 * i);
+  for (int h = 0; h < 3; h++) { trace_case("hmacbig", "h=" + S(h) + " 2^29 zero bytes"); alarm(600);
+    int fd = memfd_create("big", 0); if (ftruncate(fd, (off_t)1 << 29) != 0) { close(fd); continue; } FILE *fp = fdopen(fd, "rb");
+    unsigned char tag[64] = {0}; { hmac hm; hm.gethmac((u8_t)h, k, fp, tag); } fclose(fp);
+    int hlen = h == 0 ? 20 : h == 1 ? 16 : 32; std::string got = hex(tag, hlen);
+    if (got != want[h]) emitA("hmacbig", "C08", "tag over 2^29 zero bytes (hash mode " + S(h) + ", key 00 11 .. ff) is " + got + ", RFC 2104 (Python hmac) gives " + want[h]); }
+  emitI("hmacbig", "big_regions", "3");
+}
+// one CTR stream object driven through 2^27 + 4 blocks (2 GiB), thorough tier only. Oracle: SP 800-38A CTR is position based —
+// block j of the stream started at IV equals block 0 of a stream started at IV + j (Props/C10 `ctr_counter`): fresh objects give the reference
+static void suite_ctrlong(Rng &rng) {
+  if (!tier_thorough()) { emitI("ctrlong", "skipped", "quick tier"); return; }
+  bytes key = rng.buf(16), iv = rng.buf(16); iv[15] = 0xFE; iv[14] = 0xFF; iv[13] = 0xFF;
+  alignas(16) unsigned char k[16], v[16]; memcpy(k, key.data(), 16); memcpy(v, iv.data(), 16);
+  AesFactory f(k); f.loadiv(v); Aesmode *m = f.createCryMaster(true, 2);
+  const unsigned long N = (1ul << 27) + 4; std::vector<unsigned long> probes = {0, 1, 2, 255, 256, 257, 65535, 65536, (1ul << 24), (1ul << 27) - 2, (1ul << 27) - 1, (1ul << 27), (1ul << 27) + 1, (1ul << 27) + 3};
+  std::map<unsigned long, std::string> got; alignas(16) unsigned char blk[16];
+  trace_case("ctrlong", "CTR stream of 2^27+4 blocks key=" + hex(key) + " iv=" + hex(iv)); alarm(1500);      // a long case: its own watchdog
+  for (unsigned long j = 0; j < N; j++) { memset(blk, 0, 16); m->runcry(blk); if (std::find(probes.begin(), probes.end(), j) != probes.end()) got[j] = hex(blk, 16); }
+  delete m;
+  for (unsigned long j : probes) {      // IV + j, big endian
+    unsigned char w[16]; memcpy(w, v, 16); unsigned long c = j; for (int i = 15; i >= 0 && c; i--) { unsigned long t = w[i] + (c & 0xFF); w[i] = (unsigned char)t; c = (c >> 8) + (t >> 8); }
+    alignas(16) unsigned char v2[16]; memcpy(v2, w, 16); AesFactory f2(k); f2.loadiv(v2); Aesmode *m2 = f2.createCryMaster(true, 2); memset(blk, 0, 16); m2->runcry(blk); delete m2;
+    if (hex(blk, 16) != got[j]) emitA("ctrlong", "C10", "keystream block " + S((long)j) + " of a CTR stream differs from the first block of a stream started at IV + " + S((long)j) + " key=" + hex(key) + " iv=" + hex(iv)); }
+  // and no two of the probed keystream blocks are equal
+  for (auto &a : got) for (auto &b : got) if (a.first < b.first && a.second == b.second) emitA("ctrlong", "C18", "keystream blocks " + S((long)a.first) + " and " + S((long)b.first) + " of one CTR stream are equal key=" + hex(key) + " iv=" + hex(iv));
+  emitI("ctrlong", "blocks", S((long)N));
 }
 
 // ---------------- C08 ----------------
@@ -468,6 +505,8 @@ int main(int argc, char **argv) {
   if (which == "hashmt") suite_hashmt(rng);
   if (which == "firstuse") suite_firstuse(rng);
   if (which == "hashbig") suite_hashbig(rng);
+  if (which == "hmacbig") suite_hmacbig(rng);
+  if (which == "ctrlong") suite_ctrlong(rng);
   if (which == "hmac" || which == "all") suite_hmac(rng);
   if (which == "b64" || which == "all") suite_b64(rng);
   fflush(g_proto);
